@@ -2601,12 +2601,20 @@ where
             }
         }
 
-        // Level 3 (topology)
-        if let Err(e) = self.is_valid() {
-            violations.push(InvariantViolation {
+        // Level 3 (topology), including the completion-time checks that `validate()` runs
+        match self.is_valid() {
+            Err(e) => violations.push(InvariantViolation {
                 kind: InvariantKind::Topology,
                 error: e.into(),
-            });
+            }),
+            Ok(()) => {
+                if let Err(e) = self.validate_at_completion() {
+                    violations.push(InvariantViolation {
+                        kind: InvariantKind::Topology,
+                        error: e.into(),
+                    });
+                }
+            }
         }
 
         if violations.is_empty() {
